@@ -494,6 +494,8 @@ def _arr(ex, x):
 def np_array(ex, x, dtype=None, **kw):
     from .interp import Obj as _O
     d = as_dtype(dtype)
+    if x is None and d is None:
+        return None      # 0-d object array holding None: every arithmetic operation on it raises TypeError, exactly like None
     if isinstance(x, (str, FStr)) or x is None or isinstance(x, Obj):
         raise Unsupported(f'np.array of {type(x).__name__}')
     if isinstance(x, dict):
